@@ -311,6 +311,8 @@ def check_len(prog: Program, res: Result) -> None:
 
 
 def check(prog: Program, res: Result) -> None:
+    from . import _batch
+    _batch.check_every_iteration_accumulates(prog, res, "C11-keep", ["sleap_nn.data.confidence_maps:make_multi_confmaps", "sleap_nn.data.edge_maps:make_multi_pafs"], floor=2)
     al = make_alias(prog)
     check_pure(prog, res, al)
     check_cache(prog, res, al)
